@@ -39,6 +39,9 @@ type CopyCase struct {
 	Limit  int    `json:"stack_limit"`
 	Trace  int    `json:"trace_limit"`
 	Ops    []COp  `json:"ops"`
+	// Sparse: heap dumps only after Copy operations and at the end of the
+	// history (a leaked mutation stays visible until then)
+	Sparse bool `json:"sparse,omitempty"`
 }
 
 type cnode struct {
@@ -329,6 +332,9 @@ func (e copyEngine) Preflight(st *Stats) (*Violation, interface{}) {
 		limits, stride, off = []int{0, 30, 31}, 1, 0
 	}
 	for pi, prog := range progs {
+		if preflightPart != pi {
+			continue // parts 0 and 1: one program each
+		}
 		for _, limit := range limits {
 			for step := off; step < 400; step += stride {
 				taken := st.Probes["copy_taken_mid_run"]
@@ -347,6 +353,34 @@ func (e copyEngine) Preflight(st *Stats) (*Violation, interface{}) {
 		}
 	}
 	st.Probe("midcopy_at_every_poll_enumerated")
+	// every heap builder, copied, then written through on the copy and on the
+	// original by the type-directed mutator with each of its variants: whatever
+	// kind of internal reference a builder creates is exercised once per run
+	// instead of waiting for the draw
+	frs := heapFragments(1)
+	if preflightPart != 2 {
+		frs = nil // part 2
+	}
+	for fi, fr := range frs {
+		if curTier != "thorough" && (fi+int(curBatchSeed))%2 == 1 {
+			continue // quick: half of the builders per run, chosen by the PRNG value
+		}
+		c := &CopyCase{Engine: "copysim", Limit: 0, Sparse: true, Ops: []COp{
+			{Kind: "run", Node: 0, Src: fr},
+			{Kind: "copy", Node: 0},
+		}}
+		for v := 0; v < 12; v++ {
+			c.Ops = append(c.Ops, COp{Kind: "run", Node: 1 - v%2, Src: "__poke(" + strconv.Itoa(v) + ")"})
+			if v == 5 {
+				c.Ops = append(c.Ops, COp{Kind: "copy", Node: 1})
+			}
+		}
+		c.Ops = append(c.Ops, COp{Kind: "run", Node: 2, Src: "__poke(3);__poke(4)"})
+		if v, rc, _ := e.Exec(c, st); v != nil {
+			return v, rc
+		}
+	}
+	st.Probe("heap_builders_poked_enumerated")
 	return nil, nil
 }
 
@@ -510,7 +544,7 @@ func execCopy(c *CopyCase, st *Stats) *Violation {
 				only[op.Node] = true
 			}
 		}
-		if oi%3 == 2 || oi == len(c.Ops)-1 {
+		if (oi%3 == 2 && !c.Sparse) || oi == len(c.Ops)-1 {
 			only = nil
 		}
 		if only != nil && len(only) == 0 {
